@@ -284,6 +284,25 @@ mod harnesses {
         assert!(b.difference(&a).count() == 1);
     }
 
+    /// C13: union and symmetric difference with a strictly smaller left operand that has an element of its own, both orders
+    #[kani::proof]
+    #[kani::unwind(6)]
+    fn set_union_symdiff_small() {
+        let mut a = Set::with_hasher(Seeded(0));
+        let mut b = Set::with_hasher(Seeded(0));
+        a.insert(1);
+        b.insert(2);
+        b.insert(3);
+        assert!(a.union(&b).count() == 3);
+        assert!(b.union(&a).count() == 3);
+        assert!(a.union(&b).any(|x| *x == 1));
+        assert!(a.symmetric_difference(&b).count() == 3);
+        b.insert(1);
+        assert!(a.union(&b).count() == 3);
+        assert!(a.symmetric_difference(&b).count() == 2);
+        assert!(b.symmetric_difference(&a).count() == 2);
+    }
+
     /// a key type whose equal instances are distinguishable: Eq/Hash look at `id` only
     #[derive(Clone, Copy, Debug)]
     pub struct Tagged { pub id: u8, pub tag: u8 }
@@ -497,6 +516,65 @@ mod harnesses {
         assert!(st.old.is_none());
         m.insert(3, 4);
         assert!(m.len() == 1 && m.iter().count() == 1 && m.get(&3) == Some(&4));
+    }
+
+    /// C08: a clone taken once the main-table part is exhausted continues independently with the old-table part
+    #[kani::proof]
+    #[kani::unwind(12)]
+    fn iter_clone_after_main_exhausted() {
+        let m = split_map(0);
+        let main_len = m.verif_state().main_len;
+        assert!(main_len < 8);
+        let mut it = m.iter();
+        let mut n = 0usize;
+        while n < main_len {
+            assert!(it.next().is_some());
+            n += 1;
+        }
+        let mut c = it.clone();
+        assert!(c.len() == 8 - main_len && it.len() == 8 - main_len);
+        let mut cnt = 0usize;
+        while c.next().is_some() {
+            cnt += 1;
+        }
+        assert!(cnt == 8 - main_len);
+        assert!(it.len() == 8 - main_len);
+    }
+
+    /// C01: extend with a key that is present and still in the old table replaces the value, never the stored key
+    #[kani::proof]
+    #[kani::unwind(10)]
+    fn extend_keeps_stored_key_split() {
+        let mut m: HashMap<Tagged, u8, Seeded> = HashMap::with_hasher(Seeded(0));
+        let mut i = 0u8;
+        while i < 8 {
+            m.insert(Tagged { id: i, tag: 1 }, i);
+            i += 1;
+        }
+        assert!(m.verif_state().old.is_some());
+        let mut last = 0u8;
+        for (k, _) in m.iter() {
+            last = k.id; // iteration ends with the old table
+        }
+        m.extend(Some((Tagged { id: last, tag: 2 }, 99u8)));
+        assert!(m.len() == 8);
+        for (k, v) in m.iter() {
+            assert!(k.tag == 1);
+            assert!(k.id != last || *v == 99);
+        }
+    }
+
+    /// C01: Extend<(&K, &V)> inserts every pair, also from an iterator whose size_hint lower bound is 0
+    #[kani::proof]
+    #[kani::unwind(6)]
+    fn extend_ref_filtered() {
+        let mut src = Map::with_hasher(Seeded(0));
+        src.insert(1, 10);
+        src.insert(2, 20);
+        let mut dst = Map::with_hasher(Seeded(0));
+        dst.insert(9, 9);
+        dst.extend(src.iter().filter(|(k, _)| **k != 0));
+        assert!(dst.len() == 3 && dst.get(&1) == Some(&10) && dst.get(&2) == Some(&20));
     }
 
     /// C13: is_disjoint follows the definition also for aliased and empty operands
